@@ -122,6 +122,11 @@ def finding_matches(k, prop, name, model):
 
 
 def main():
+    # verification conditions are built in the iteration order of python sets/dicts of strings: fix the hash seed so that the
+    # same source gives the same formulas (and hence the same solver behaviour) on every run
+    if os.environ.get("PYTHONHASHSEED") != "0":
+        os.environ["PYTHONHASHSEED"] = "0"
+        os.execv(sys.executable, [sys.executable] + sys.argv)
     ap = argparse.ArgumentParser()
     ap.add_argument("prop", nargs="?")
     ap.add_argument("--tier", default=os.environ.get("VERIF_TIER", "quick"))
